@@ -28,6 +28,7 @@ PcG(id, mode, m, grantee, amt)  == OpRec("pc", id, mode, m, "S", 0, 1, amt, gran
 CallC(id, mode, value, body)    == OpRec("call", id, mode, "-", "-", 0, 0, Z, "-", "-", value, body)
 Send(id, to, value)             == OpRec("call", id, "catch", "-", "-", 0, 0, Z, "-", to, value, <<>>)
 Store(id)                       == OpRec("sstore", id, "catch", "-", "-", 0, 0, Z, "-", "-", Z, <<>>)
+Log(id)                         == OpRec("log", id, "catch", "-", "-", 0, 0, Z, "-", "-", Z, <<>>)
 Rev(id)                         == OpRec("revert", id, "catch", "-", "-", 0, 0, Z, "-", "-", Z, <<>>)
 Inval(id)                       == OpRec("invalid", id, "catch", "-", "-", 0, 0, Z, "-", "-", Z, <<>>)
 CallCA(id, mode, value, body, alt) == [CallC(id, mode, value, body) EXCEPT !.alt = alt]
@@ -58,12 +59,14 @@ GrantsFor(m, c) == IF TypeOf(m) = "-" THEN NoGrant ELSE <<[Grant(TypeOf(m), "", 
 Setup(signer, wdS, grants, value) ==
     [signer |-> signer, wd |-> [S |-> wdS], grants |-> grants, delegS |-> "1000000000000000000000",
      delegT |-> "1000000000000000000000", ubdS |-> "5000000", fundC |-> "5000000000000000000", warm |-> 3,
-     delegC |-> "0", denom2 |-> FALSE, acl |-> FALSE]
+     delegC |-> "0", denom2 |-> FALSE, acl |-> FALSE, priorLog |-> FALSE]
 SetupC(wdS, grants, d2) == [Setup("a1", wdS, grants, Z) EXCEPT !.delegC = "700000000000000000000", !.denom2 = d2]
 
 \* the same as an EIP-2930 transaction whose access list makes every callee warm (no access-list entry is
 \* journaled between the balance changes of a call)
 Warm(S) == {[x EXCEPT !.setup.acl = TRUE] : x \in S}
+\* ... preceded in its block by a transaction that emits logs (the log index of the block is not 0)
+Later(S) == {[x EXCEPT !.setup.priorLog = TRUE] : x \in S}
 
 \* ----- C02: no frame reverts on purpose ------------------------------------------------
 C02Direct == {[setup |-> Setup(IF m = "withdrawCommission" THEN "v1" ELSE "a1", w, NoGrant, Z), top |-> Pc(0, "catch", m, who, Amt)] :
@@ -163,7 +166,13 @@ C05Destroy ==
 \* (viii) a contract creation whose constructor called a precompile fails
 C05Create(m) == {[c |-> "N0", t |-> Create(0, Z, <<Store(1), PcM(2, "catch", m), Rev(3)>>)],
                  [c |-> "N0", t |-> Create(0, "600", <<PcM(2, "catch", m), Inval(3)>>)]}
-C05All == C05Failed \cup C05Destroy \cup C02Plain \cup C02PcValue \cup Warm(C02Plain \cup C05Destroy \cup C02PcValue)
+\* logs: emitted in frames that complete, in frames that revert, before and after precompile calls
+C05LogTrees(m) ==
+    {CallC(0, "catch", Z, <<Log(7), CallC(1, "catch", Z, <<Log(8), PcM(2, "catch", m), Log(9), Rev(3)>>), Log(10), Store(4)>>),
+     CallC(0, "catch", Z, <<Log(7), CallC(1, "catch", Z, <<Log(8), CallC(2, "catch", Z, <<Log(9), Store(5)>>), Inval(3)>>), Log(10)>>),
+     CallC(0, "catch", Z, <<CallC(1, "catch", Z, <<Log(8), Store(5)>>), CallC(2, "bubble", Z, <<Log(9), Rev(3)>>), Log(10)>>)}
+C05Logs == UNION {{[setup |-> Setup("a1", "self", GrantsFor(m, "C1"), Z), top |-> t] : t \in C05LogTrees(m)} : m \in {"query", "delegate"}}
+C05All == Later(C05Logs) \cup C05Logs \cup C05Failed \cup C05Destroy \cup C02Plain \cup C02PcValue \cup Warm(C02Plain \cup C05Destroy \cup C02PcValue)
           \cup UNION {{[setup |-> Setup("a1", w, GrantsFor(m, x.c), Z), top |-> x.t] : w \in {"self", "W"}, x \in C05Reentrant(m) \cup C05Create(m)} :
                        m \in {"delegate", "setWithdrawAddress", "withdrawRewards", "approve", "query"}}
           \cup UNION {{[setup |-> Setup("a1", w, GrantsFor(m, x.c), Z), top |-> x.t] : w \in {"self", "W"}, x \in C05Trees(m)} : m \in RevMethods}
@@ -255,6 +264,7 @@ AbstractPre(x) ==
                      ELSE [c \in cs |-> [k \in {p[2] : p \in {q \in sl : q[1] = c}} |-> 0]],
          nonce |-> [a \in as |-> IF a \in cs THEN (IF a = "N0" THEN "0" ELSE "1") ELSE "3"],
          code |-> [a \in as |-> IF a \in cs /\ a # "N0" THEN "yes" ELSE "no"],
+         logs |-> <<>>,
          commission |-> [v \in vs |-> "555"] ]
 
 ModelRun(x) ==
